@@ -259,6 +259,20 @@ def build_joint(spec, zsrcs=None):
             nd += 1
             dens.append(QD(loc_of(f), co, len(f["x"][1]), nm))
             data[nm] = np.asarray(f["x"][1], dtype=float)
+    # declaration order of the densities: by default priors (par_names order) then data factors; spec["data_pos"] puts the
+    # data factors in between (the joint's parameter order stays the order of the priors among themselves)
+    pos = spec.get("data_pos")
+    if pos:
+        k = len(names)
+        pri, dat = dens[:k], dens[k:]
+        out, di = [], 0
+        for slot in range(k + 1):
+            while di < len(dat) and pos[di] == slot:
+                out.append(dat[di])
+                di += 1
+            if slot < k:
+                out.append(pri[slot])
+        dens = out + dat[di:]
     J = JointDistribution(*dens)
     return J(**data) if data else J
 
@@ -765,6 +779,42 @@ HY_FINE_CELLS = [
     ("hybrid/fine-move/rel2^-36/sigma2^-40", 2, 1, ["KRec"] * 2, None, [("warmup", 2, 0.5), ("sample", 3)], 36, 2.0 ** -40),
     ("hybrid/fine-move/rel2^-30/mh-neighbour", 3, 0, ["KRec", "KMH", "KRec"], None, [("sample", 4)], 30, 1.0),
 ]
+# permanent lattices: tuple-grouped strategies (adjacent and separated members), densities declared with the data factors
+# between the priors
+LG_LATTICE_CELLS = [("legacy/tuple-groups/%s" % g, kk, 1, ["LRec"] * kk, [(2, 1), (1, 0)])
+                    for g, kk in (("01", 3), ("12", 3), ("02", 3), ("012", 3), ("03", 4), ("02+13", 4), ("13", 4))] + [
+    ("legacy/dens-order/rec/3blk/lik2", 3, 2, ["LRec"] * 3, [(2, 1), (1, 0)]),
+    ("legacy/dens-order/mh+rec/4blk/lik2", 4, 2, ["LMH", "LRec", "LMH", "LRec"], [(3, 0)]),
+]
+STEP_OPTS = [None, 1, 2, 3]           # None = key missing from num_sampling_steps
+
+
+def gen_hybrid_lattice(rng, idx):
+    """num_sampling_steps lattice: every (n0, n1) in {missing, 1, 2, 3}^2 for two blocks (recording x MH alternating), plus
+    densities declared with the data factors between the priors"""
+    a, b = STEP_OPTS[idx // 4], STEP_OPTS[idx % 4]
+    kinds = ["KRec", "KMH"] if idx % 2 else ["KMH", "KRec"]
+    steps = None if (a is None and b is None and idx == 0) else [a, b]
+    cell = ("hybrid/steps-lattice/%s,%s" % (a, b), 2, 1, kinds, steps, [("sample", 2), ("sample", 1)])
+    m = gen_hybrid(rng, cell, rep=1)
+    m["spec"]["data_pos"] = [rng.randint(0, 1)]
+    return m
+
+
+HY_ORDER_CELLS = [
+    ("hybrid/dens-order/rec+mh/3blk/lik2", 3, 2, ["KRec", "KMH", "KRec"], [1, 2, 1], [("sample", 3)]),
+    ("hybrid/dens-order/mh+direct+nuts/4blk/lik2/warmup", 4, 2, ["KMH", "KNuts", "KRec", "KDirect"], [2, 1, 1, 1], [("warmup", 2, 0.5), ("sample", 2)]),
+]
+
+
+def gen_hybrid_order(rng, cell, rep):
+    m = gen_hybrid(rng, cell, rep)
+    k = len(m["kinds"])
+    leafpos = [i for i, kd in enumerate(m["kinds"]) if kd == "KDirect"]
+    m["spec"]["data_pos"] = sorted(rng.randint(0, k - 1) for _ in range(cell[2]))
+    return m
+
+
 LG_SCALE_CELLS = [
     ("legacy/scale-mixed/rec/3blk/lik/continue", 3, 1, ["LRec"] * 3, [(2, 1), (2, 0)], "mixed"),
     ("legacy/scale-tiny/mh+rec/2blk/lik", 2, 1, ["LMH", "LRec"], [(3, 0)], "tiny"),
@@ -878,8 +928,8 @@ def run_legacy(meta):
         strategy[nm] = mk_mh(i) if meta["kinds"][i] == "LMH" else mk_rec(i)
     if meta.get("tuple_key"):
         # one sampler class for a tuple of parameters (as in the docstring: ('d','l'): Conjugate); the class finds the
-        # block it serves from the only parameter its target still has
-        grp = [i for i in meta["tuple_key"]]
+        # block it serves from the only parameter its target still has.  tuple_key = one group or a list of groups
+        groups = meta["tuple_key"] if isinstance(meta["tuple_key"][0], list) else [meta["tuple_key"]]
 
         class LRecAny:
             def __init__(self, tgt):
@@ -889,9 +939,10 @@ def run_legacy(meta):
             def step(self, x):
                 tr.on_lstep(self.blk, self.target, x)
                 return np.asarray(scripts[self.blk].pop(0)["vec"], dtype=float)
-        for i in grp:
-            del strategy[spec["names"][i]]
-        strategy[tuple(spec["names"][i] for i in grp)] = LRecAny
+        for grp in groups:
+            for i in grp:
+                del strategy[spec["names"][i]]
+            strategy[tuple(spec["names"][i] for i in grp)] = LRecAny
 
     class GX(Gibbs):
         def step(self, current_samples):
@@ -960,7 +1011,11 @@ def oracle_legacy(meta, obs):
                 want = [new[b] if b < i else prev[b] for b in range(k)]
                 if e["cur"] != want:
                     return ("sweep %d block %s: current_samples %s are not (updated blocks new, the rest old) %s" % (t, spec["names"][i], e["cur"], want)), "Gibbs.step|current-values"
-                for p, v in zip(meta["probes"][i], e["probes"]):
+                if meta.get("real"):
+                    bad = real_probe_check(meta, i, want, e)
+                    if bad:
+                        return ("sweep %d block %s (legacy %s): %s; current other values %s" % (t, spec["names"][i], meta["assign"][i], bad, [c for b, c in enumerate(want) if b != i])), "Gibbs.step|conditional-not-current"
+                for p, v in zip(meta["probes"][i], e["probes"] if not meta.get("real") else []):
                     asg = [list(x) for x in want]
                     asg[i] = p
                     ex = joint_py(spec, asg)
@@ -1039,6 +1094,10 @@ def gen_legacy(rng, cell):
     inits = [None if rng.random() < 0.3 else rvec(rng, spec["dims"][i], -2, 2, 2) for i in range(k)]
     kk = ["KMH" if x == "LMH" else "KRec" for x in kinds]
     tk = [0, 2] if "tuple-key" in name else None
+    if "tuple-groups" in name:
+        tk = {"01": [[0, 1]], "12": [[1, 2]], "02": [[0, 2]], "012": [[0, 1, 2]], "03": [[0, 3]], "02+13": [[0, 2], [1, 3]], "13": [[1, 3]]}[name.rsplit("/", 1)[1]]
+    if "dens-order" in name and ndata:
+        spec["data_pos"] = sorted(rng.randint(0, k - 1) for _ in range(ndata))
     return {"iface": "legacy", "cell": name, "spec": spec, "kinds": list(kinds), "ops": [list(o) for o in ops], "scales": scales, "tuple_key": tk,
             "inits": inits, "probes": gen_probes(rng, spec), "script": gen_script(rng, spec, kk, [1] * k, nsw, scales)}
 
@@ -1161,7 +1220,9 @@ def real_model(meta):
         x = Gaussian(np.zeros(len(meta["A"][0])), cov=lambda d: 1 / d, name="x")
         y = Gaussian(A(x), cov=lambda l: 1 / l, name="y")
         dens = {"d": d, "l": l, "x": x}
-        J = JointDistribution(*[dens[n] for n in meta["spec"]["names"]], y)
+        order = [dens[n] for n in meta["spec"]["names"]]
+        order.insert(meta.get("ypos", len(order)), y)          # the data density anywhere among the priors
+        J = JointDistribution(*order)
         return J(y=np.asarray(meta["y"], dtype=float))
     s = Gaussian(np.asarray(meta["mu"], dtype=float) * g, meta["vs"] * g * g, name="s")
     x = Gaussian(lambda s: s, meta["vx"] * g * g, geometry=2, name="x")
@@ -1517,7 +1578,7 @@ def gen_real(rng, cell):
     g = 2.0 ** lg
     k = len(names)
     meta = {"iface": "real", "real": True, "cell": name, "model": model, "assign": list(assign), "sigma": g, "npseed": rng.randint(0, 10 ** 6),
-            "zero_noise": bool(rng.random() < 0.5),
+            "zero_noise": bool(rng.random() < 0.5), "ypos": rng.randint(0, k),
             "num_steps": None if steps is None else list(steps), "ops": [list(o) for o in ops], "kinds": ["KRec"] * k}
     if model == "hier":
         n, m = rng.choice([2, 3]), 3
@@ -1558,12 +1619,130 @@ def gen_real(rng, cell):
     meta["zs"] = [[rng.choice([0.5, 0.75, 1.0, 1.5, 2.0, 3.0]) for _ in range(nsw_tot)] if a == "Conjugate" else [] for a in assign]
     return meta
 
+
+# ---- legacy Gibbs with the real legacy samplers (cuqi.sampler.LinearRTO / Conjugate / NUTS / MH), kernels opaque
+LEGACY_REAL_CELLS = [
+    # (cell, model, names, assignment, tuple groups, ops, log2 sigma)
+    ("legacy-real/hier/LinearRTO+Conjugate-tuple/adjacent", "hier", ["d", "l", "x"], ["Conjugate", "Conjugate", "LinearRTO"], [[0, 1]], [(2, 1), (1, 0)], 0),
+    ("legacy-real/hier/LinearRTO+Conjugate-tuple/separated/x-scale2^-30", "hier", ["d", "x", "l"], ["Conjugate", "LinearRTO", "Conjugate"], [[0, 2]], [(3, 0)], -30),
+    ("legacy-real/hier/LinearRTO+Conjugate/generative-order", "hier", ["x", "d", "l"], ["LinearRTO", "Conjugate", "Conjugate"], None, [(2, 0), (1, 0)], 20),
+    ("legacy-real/pair/NUTS+MH", "pair", ["x", "s"], ["NUTS", "MH"], None, [(2, 1)], 0),
+    ("legacy-real/pair/MH+MH/scale2^-40", "pair", ["s", "x"], ["MH", "MH"], None, [(3, 0)], -40),
+]
+
+
+def gen_legacy_real(rng, cell):
+    name, model, names, assign, groups, ops, lg = cell
+    m = gen_real(rng, (name, model, names, assign, None, [("sample", 1)], lg))
+    m.update(iface="legacy-real", ops=[list(o) for o in ops], groups=groups, kinds=["LRec"] * len(names), ypos=rng.randint(0, len(names)))
+    return m
+
+
+def run_legacy_real(meta):
+    import cuqi
+    from cuqi.sampler import Gibbs
+    spec = meta["spec"]
+    names = spec["names"]
+    k = len(names)
+    tr = Trace(spec, meta["probes"])
+    tr.results = [[] for _ in range(k)]
+    np.random.seed(meta["npseed"])
+    obs = {"error": None, "calls": []}
+
+    def mk(which):
+        base = {"LinearRTO": cuqi.sampler.LinearRTO, "Conjugate": cuqi.sampler.Conjugate, "NUTS": cuqi.sampler.NUTS, "MH": cuqi.sampler.MH}[which]
+
+        class LW:
+            def __init__(self, tgt):
+                self.target = tgt
+                self.blk = names.index(tgt.get_parameter_names()[-1])
+                kw = {}
+                if which == "MH":
+                    kw["scale"] = meta["sscale"][self.blk]
+                if which == "NUTS":
+                    kw["max_depth"] = 3
+                self.inner = base(tgt, **kw)
+
+            def step(self, x):
+                tr.on_lstep(self.blk, self.target, x)
+                out = self.inner.step(x)
+                tr.results[self.blk].append([float(a) for a in np.asarray(out).ravel()])
+                return out
+        return LW
+    try:
+        with contextlib.redirect_stdout(io.StringIO()):
+            target = real_model(meta)
+            for i, nm in enumerate(names):
+                target.get_density(nm).init_point = np.asarray(meta["inits"][i], dtype=float)
+            strategy = {nm: mk(meta["assign"][i]) for i, nm in enumerate(names)}
+            for grp in (meta.get("groups") or []):
+                cls = strategy[names[grp[0]]]
+                for i in grp:
+                    del strategy[names[i]]
+                strategy[tuple(names[i] for i in grp)] = cls
+
+            class GX(Gibbs):
+                def step(self, current_samples):
+                    tr.cur = current_samples
+                    return super().step(current_samples)
+            G = GX(target, strategy)
+            obs["par_names"] = list(G.par_names)
+            for (ns, nb) in meta["ops"]:
+                try:
+                    ret = G.sample(ns, nb)
+                    cols = lambda d: [[[float(a) for a in d[n][:, t]] for n in names] for t in range(d[names[0]].shape[1])]
+                    obs["calls"].append({"samples": cols(G.samples), "warm": cols(G.samples_warmup),
+                                         "ret_ok": bool(all(np.array_equal(ret[n].samples, G.samples[n]) for n in names)),
+                                         "shapes_ok": all(G.samples[n].shape[0] == spec["dims"][i] for i, n in enumerate(names))})
+                except IndexError:
+                    obs["calls"].append({"raised": "IndexError"})
+                except ValueError:
+                    obs["calls"].append({"raised": "ValueError"})
+        obs["events"] = tr.events
+        obs["results"] = tr.results
+        obs["leftover"] = [0] * k
+    except Exception as e:      # noqa
+        obs["error"] = "%s: %s" % (type(e).__name__, str(e)[:300])
+        obs["events"] = tr.events
+        obs["results"] = tr.results
+    return obs
+
+
+def legacy_real_script(meta, obs):
+    k = len(meta["spec"]["names"])
+    nsw = legacy_sweeps(meta["ops"])
+    res = obs.get("results") or [[] for _ in range(k)]
+    get = lambda i, n: res[i][n] if n < len(res[i]) else [0.0] * meta["spec"]["dims"][i]
+    return [[[{"vec": get(i, t), "u": None, "acc": 1}] for i in range(k)] for t in range(nsw)]
+
+
+def encode_legacy_real(meta, obs):
+    if obs.get("error"):
+        return "false"
+    k = len(meta["spec"]["names"])
+    oobs = []
+    for c in obs["calls"]:
+        if "raised" in c:
+            oobs.append("LObs%s" % c["raised"])
+        else:
+            oobs.append("(LObs %s %s)" % (clist([cvecs(st) for st in c["samples"]]), clist([cvecs(st) for st in c["warm"]])))
+    combos = clist([clist([czvec(c) for c in meta["combos"][i]]) for i in range(k)])
+    return "check_legacy_tol %s %s %s %s %s %s %s %s %s" % (
+        cgjoint(meta), cvecs(meta["inits"]), cscript(legacy_real_script(meta, obs)),
+        clist(["(LSample %s %s)" % (cnat(a), cnat(b)) for a, b in meta["ops"]]), clist([cvecs(p) for p in meta["probes"]]), combos,
+        cq(TOL_REAL), clist(oobs), clist([coev(dict(e, cache=None)) for e in obs["events"]]))
+
 # ------------------------------------------------------------------------------------------
 # run / classify / replay / witnesses
 # ------------------------------------------------------------------------------------------
 def make_cases(meta, fresh):
     """the correspondence case(s) of one scenario"""
     out = []
+    if meta["iface"] == "legacy-real":
+        obs = run_legacy_real(meta)
+        detail, sig = oracle_legacy(dict(meta, script=legacy_real_script(meta, obs)), obs)
+        out.append(Case(expr=encode_legacy_real(meta, obs), meta=meta, cell=meta["cell"], kind="DECISION", impl_fail=detail, signature=sig or ""))
+        return out
     if meta["iface"] == "real":
         obs = run_real(meta)
         detail, sig = oracle_hybrid(dict(meta, script=real_results_script(meta, obs)), obs)
@@ -1622,6 +1801,15 @@ def run(ctx):
             cases += make_cases(gen_hybrid_fine(rng, cell, rep), fresh)
     for rep in range(reps2):
         cases += make_cases(gen_hybrid_partial(rng, rep), fresh)
+    for idx in range(16):
+        for rep in range(ctx.n(1, 6)):
+            cases += make_cases(gen_hybrid_lattice(rng, idx), fresh)
+    for cell in HY_ORDER_CELLS:
+        for rep in range(reps2):
+            cases += make_cases(gen_hybrid_order(rng, cell, rep), fresh)
+    for cell in LG_LATTICE_CELLS:
+        for rep in range(ctx.n(3, 30)):
+            cases += make_cases(gen_legacy(rng, cell), fresh)
     for cell in LG_SCALE_CELLS:
         for rep in range(reps2):
             cases += make_cases(gen_legacy_scale(rng, cell), fresh)
@@ -1631,6 +1819,9 @@ def run(ctx):
     for cell in REAL_CELLS:
         for rep in range(ctx.n(3, 25)):
             cases += make_cases(gen_real(rng, cell), fresh)
+    for cell in LEGACY_REAL_CELLS:
+        for rep in range(ctx.n(2, 15)):
+            cases += make_cases(gen_legacy_real(rng, cell), fresh)
     # the fixed witnesses as regular cases as well
     cases += make_cases(dict(WITNESS), fresh)
     cases += make_cases(dict(WITNESS_GETS), fresh)
@@ -1659,6 +1850,9 @@ def classify(meta, detail):
 
 def oracle(ctx, meta):
     m = meta.get("meta", meta)
+    if m.get("iface") == "legacy-real":
+        obs = run_legacy_real(m)
+        return oracle_legacy(dict(m, script=legacy_real_script(m, obs)), obs)[0]
     if m.get("iface") == "real":
         obs = run_real(m)
         return real_cache_check(m, obs) if m.get("check") == "cache" else oracle_hybrid(dict(m, script=real_results_script(m, obs)), obs)[0]
@@ -1690,6 +1884,14 @@ def replay(ctx, meta):
     m = meta.get("meta", meta)
     print(json.dumps({k: v for k, v in meta.items() if k != "meta"}, indent=1)[:3000])
     classes()
+    if m.get("iface") == "legacy-real":
+        obs = run_legacy_real(m)
+        print("scenario:", json.dumps({k: m[k] for k in m if k not in ("probes", "combos")})[:1500])
+        print("implementation: calls", str(obs.get("calls"))[:1500], "error", obs.get("error"))
+        for e in obs.get("events", [])[:12]:
+            print("  step of block %s: current_samples %s, from %s, target at probes %s" % (m["spec"]["names"][e["blk"]], e["cur"], e["pt"], e["probes"]))
+        print("property oracle (closed-form conditionals):", oracle_legacy(dict(m, script=legacy_real_script(m, obs)), obs))
+        return 0
     if m.get("iface") == "real":
         obs = run_real(m)
         print("scenario:", json.dumps({k: m[k] for k in m if k not in ("probes", "combos")})[:1500])
